@@ -14,6 +14,8 @@ import numpy as np
 from vmon.ref import qubits as rq
 from vmon.core import digest, to_numpy
 
+TECHNIQUE = ('runtime monitoring: postconditions comparing every simulator call with the dense embedded operator built by explicit bit arithmetic; program (trace) monitor: the harness logs the gate program it drives through the public Circuit API (own gate library) incl. shifts, extends, shared gates, placeholders and in-place parameter updates, and checks unitary / action against the ordered product of the logged operators')
+LEVEL_TEXT = ('Exploration by runtime monitoring: exhaustive target tuples x control subsets for n<=3 (quick) / n<=4 (thorough), random n<=6, random gate programs with histories, shipped encoders; every apply_gate / apply_control_n_gate / dm / Circuit call made anywhere in the process is judged. n>7 (n>6 for circuits) is not monitored.')
 RULE = ('cases = (state, operator, ordered target tuple, control subset) and gate programs; target tuples of size 1..3 with all '
         'disjoint control subsets enumerated completely for n<=3 (quick) / n<=4 (thorough), random for n=5,6; programs are random '
         'sequences over the full Circuit vocabulary with shifts/extends/placeholders/shared gates; a case is non-trivial when the '
